@@ -274,7 +274,7 @@ def run(ck):
     worst_id = 0.0
     for i in range(n):
         uniform = (i % 5 != 4)
-        case = gen_case(rng, uniform=uniform, small=ck.tier == 'quick', families=['varray'] if i % 9 == 2 else ['monopole'] if i % 9 in (5, 7) else None)
+        case = gen_case(rng, uniform=uniform, small=ck.tier == 'quick', families=['varray'] if i % 9 == 2 else ['monopole'] if i % 9 in (5, 7) else ['taper_vee'] if i % 9 == 3 else None)
         if not in_domain(case['ant']):
             ck.count('outside_modelling_rules')
             continue
